@@ -389,7 +389,7 @@ CONSTANTS Source = "{source}"
   Indents = {inds}
   BlankCounts = {{0, 1, 2}}
   RstLineNotConverted = {"TRUE" if os.environ.get("VERIF_C16_MODEL") == "prefix" else "FALSE"}
-  LeadingWsKept = {"FALSE" if os.environ.get("VERIF_C16_LEADWS") == "fixed" else "TRUE"}
+  LeadingWsKept = {"TRUE" if os.environ.get("VERIF_C16_LEADWS") == "prefix" else "FALSE"}
 CONSTRAINT Emit
 {inv}"""
 
